@@ -246,6 +246,14 @@ class Generation:
                    'AttributeError': AttributeError, 'OSError': OSError}[fault.get('exc', 'RuntimeError')]
             data = pickle.dumps((None, functions._test_raise_error, (None, exc), {}), 4)
 
+        elif phase == 'flood_then_die':
+            # the helper writes a long report to stderr (traceback, faulthandler or sanitizer
+            # dump) and then dies with the request in flight
+            from jedi.inference.compiled.subprocess import functions
+            n = int(fault.get('lines', 1500))
+            pre = pickle.dumps((None, functions._test_print, (None,), {'stderr': ('stderr line of a dying helper\n' * n)}), 4)
+            self._real_roundtrip(pre)
+
         # keep the model of the helper-side table (only for requests that are delivered)
         delivered = phase not in ('kill_before_send', 'die_by_exception', 'reply_exception') and not self.dead
         if delivered and is_id is not None:
@@ -271,7 +279,7 @@ class Generation:
             rec['epipe'] = True
             raise BrokenPipeError(32, 'Broken pipe')
 
-        if phase == 'kill_after_send':
+        if phase in ('kill_after_send', 'flood_then_die'):
             self.sim_kill()
             reply = b''
         elif phase == 'truncate_reply':
